@@ -17,11 +17,14 @@ indented, sen tight and indented; `oj.Marshal` and `oj.Write` are the tight/inde
   `Props/C15.lean` speaks about `encodeO` too);
 * `writers_oj_sen_agree_omit`: under EVERY option combination, the omit options included, oj and sen
   describe the same tree (code as it is, `Dev.current`);
-* `tight_indent_agree_omit_partial`: the tight and the indented writer describe the same tree under
-  every option combination EXCEPT `OmitNil` without `OmitEmpty`; `tight_indent_differ_witness`,
-  `omit_tight_indent_full_false`: there they differ (`map[string]string{"a": ""}`: the tight
-  writer gives `{}`, the indented one `{"a":""}` — finding `C15-omitnil-tight-empty-string`);
-  `tight_indent_agree_omit_repaired`: with the tight string test repaired they agree always.
+* `tight_indent_agree_omit_current` (= `omit_tight_indent_full`, the FULL statement, true since /repo
+  d7a5508): the tight and the indented writer describe the same tree under every option combination;
+  `tight_indent_agree_omit_repaired` is the same about `encodeOWith false`; before d7a5508
+  (`encodeOWith true`, finding `C15-omitnil-tight-empty-string`, fixed):
+  `tight_indent_agree_omit_partial_before_d7a5508` (agreement except under `OmitNil` without
+  `OmitEmpty`), `tight_indent_differ_witness_before_d7a5508`, `omit_tight_indent_full_before_d7a5508_false`
+  (`map[string]string{"a": ""}`: the tight writer gave `{}`, the indented one `{"a":""}`);
+  `tight_indent_agree_omit_partial` (the round-3 statement about `encodeO`) still holds.
 
 * `alt_omitNil_is_dropNulls`, `alt_omitNil_eq_pruned_reference`: under `OmitNil` without `OmitEmpty`
   alt.Decompose (model `Reflect/EncOmitAlt.lean`) describes the tree it describes without the option —
@@ -226,8 +229,9 @@ def omit_tight_indent_full : Prop :=
   ∀ (e : Enc) (o : Opts) (tf vf : Nat) (t : GoType) (v : GoVal),
     encodeO e Dev.current { o with indent := false } tf vf t v = encodeO e Dev.current { o with indent := true } tf vf t v
 
-/-- PARTIAL (code as it is): excluded is exactly `OmitNil` without `OmitEmpty`
-(finding `C15-omitnil-tight-empty-string`) -/
+/-- the round-3 PARTIAL statement about `encodeO` (excluded: `OmitNil` without `OmitEmpty`, finding
+`C15-omitnil-tight-empty-string`); since /repo d7a5508 the exclusion is no longer needed
+(`tight_indent_agree_omit_current`), the statement still holds -/
 theorem tight_indent_agree_omit_partial (e : Enc) (o : Opts) (h : o.omitNil = true → o.omitEmpty = true)
     (tf vf : Nat) (t : GoType) (v : GoVal) :
     encodeO e Dev.current { o with indent := false } tf vf t v = encodeO e Dev.current { o with indent := true } tf vf t v := by
@@ -254,22 +258,51 @@ def omitNilOnly : Opts := ⟨false, false, false, true, false, false, false, fal
 def mapStrStr : GoType := .map .str
 def mapEmptyStr : GoVal := .map [("a".toUTF8.toList, .str [])]
 
-/-- `oj.JSON(map[string]string{"a": ""}, &ojg.Options{OmitNil: true})` is `{}`; with `Indent: 2` it is
-`{"a":""}` (an empty string is not nil: the indented writer is right) -/
-theorem tight_indent_differ_witness :
-    jvBeq (encodeO .oj Dev.current { omitNilOnly with indent := false } 4 4 mapStrStr mapEmptyStr) (.obj []) = true ∧
-    jvBeq (encodeO .oj Dev.current { omitNilOnly with indent := true } 4 4 mapStrStr mapEmptyStr) (.obj []) = false ∧
-    jvBeq (encodeO .oj Dev.current { omitNilOnly with indent := true } 4 4 mapStrStr mapEmptyStr)
+/-- PARTIAL, the code before /repo d7a5508 (`encodeOWith true`): excluded is exactly `OmitNil` without
+`OmitEmpty` (finding `C15-omitnil-tight-empty-string`, fixed by d7a5508) -/
+theorem tight_indent_agree_omit_partial_before_d7a5508 (e : Enc) (o : Opts) (h : o.omitNil = true → o.omitEmpty = true)
+    (tf vf : Nat) (t : GoType) (v : GoVal) :
+    encodeOWith true e Dev.current { o with indent := false } tf vf t v =
+      encodeOWith true e Dev.current { o with indent := true } tf vf t v := by
+  rw [encodeOWith_indent, encodeOWith_indent]
+  have hs : strDropOf true { o with indent := false } = strDropOf true { o with indent := true } := by
+    cases hn : o.omitNil <;> cases he : o.omitEmpty <;> simp_all [strDropOf]
+  rw [hs]
+
+/-- the code as it is (/repo d7a5508): the FULL statement holds — the tight and the indented writer of
+a package describe the same tree under every option combination -/
+theorem tight_indent_agree_omit_current : omit_tight_indent_full := by
+  intro e o tf vf t v
+  exact tight_indent_agree_omit_repaired e o tf vf t v
+
+/-- the full statement about the code before /repo d7a5508 -/
+def omit_tight_indent_full_before_d7a5508 : Prop :=
+  ∀ (e : Enc) (o : Opts) (tf vf : Nat) (t : GoType) (v : GoVal),
+    encodeOWith true e Dev.current { o with indent := false } tf vf t v =
+      encodeOWith true e Dev.current { o with indent := true } tf vf t v
+
+/-- before /repo d7a5508: `oj.JSON(map[string]string{"a": ""}, &ojg.Options{OmitNil: true})` was `{}`; with
+`Indent: 2` it was `{"a":""}` (an empty string is not nil: the indented writer was right) -/
+theorem tight_indent_differ_witness_before_d7a5508 :
+    jvBeq (encodeOWith true .oj Dev.current { omitNilOnly with indent := false } 4 4 mapStrStr mapEmptyStr) (.obj []) = true ∧
+    jvBeq (encodeOWith true .oj Dev.current { omitNilOnly with indent := true } 4 4 mapStrStr mapEmptyStr) (.obj []) = false ∧
+    jvBeq (encodeOWith true .oj Dev.current { omitNilOnly with indent := true } 4 4 mapStrStr mapEmptyStr)
       (.obj [("a".toUTF8.toList, .str [])]) = true := by
   decide +kernel
 
-theorem omit_tight_indent_full_false : ¬ omit_tight_indent_full := by
+theorem omit_tight_indent_full_before_d7a5508_false : ¬ omit_tight_indent_full_before_d7a5508 := by
   intro h
   have h1 := h .oj omitNilOnly 4 4 mapStrStr mapEmptyStr
-  have hw := tight_indent_differ_witness
+  have hw := tight_indent_differ_witness_before_d7a5508
   rw [h1] at hw
   rw [hw.2.1] at hw
   exact absurd hw.1 (by decide)
+
+/-- the tight writer now keeps the empty string: both writers give `{"a":""}` -/
+theorem tight_omitnil_repaired :
+    jvBeq (encodeO .oj Dev.current { omitNilOnly with indent := false } 4 4 mapStrStr mapEmptyStr)
+      (.obj [("a".toUTF8.toList, .str [])]) = true := by
+  decide +kernel
 
 /-! ## alt.Decompose under the omit options (model `Reflect/EncOmitAlt.lean`) -/
 
